@@ -4,6 +4,7 @@ import (
 	"bytes"
 	"compress/gzip"
 	"context"
+	"errors"
 	"fmt"
 	"io"
 	"strconv"
@@ -33,7 +34,7 @@ func init() {
 	}
 	realComponents["C16"] = []string{"logsink/zip.ZipSendProxyThread (GetInstance, Add, SendDirect, ApplyConfig, run loop)", "util/queue.RequestQueue", "pack.LogSinkPack / pack.ZipPack codecs", "util/compressutil (gzip)"}
 	stubComponents["C16"] = []string{"recording net.TcpClient (consume / retain)", "config.Config stub (map-backed)", "sync, time (virtual clock), goroutine scheduler"}
-	probesFor["C16"] = []string{"flush_by_size", "flush_by_age", "flush_by_idle", "flush_by_cancel", "retained_pack_followed_by_append", "payload_at_threshold", "queue_refused", "defaults_batch", "senddirect_split"}
+	probesFor["C16"] = []string{"flush_by_size", "flush_by_age", "flush_by_idle", "flush_by_cancel", "retained_pack_followed_by_append", "payload_at_threshold", "queue_refused", "defaults_batch", "senddirect_split", "client_send_error"}
 	register(&Scenario{Prop: "C16", Name: "configured", MaxSteps: 2000000, Body: c16Body(true), After: c16After, Quanta: []int64{20000, 50000}})
 	register(&Scenario{Prop: "C16", Name: "defaults", MaxSteps: 2000000, Body: c16Body(false), After: c16After, Quanta: []int64{20000, 50000}})
 }
@@ -85,17 +86,18 @@ func (c *stubConf) String() string                                              
 // ---- recording client ----
 
 type c16Emit struct {
-	Seq    int    `json:"seq"`
-	Stamp  int64  `json:"stamp"`
-	AtMs   int64  `json:"at_ms"`
-	Via    string `json:"via"` // queue | direct
-	Bytes  int    `json:"bytes"`
-	Count  int    `json:"record_count"`
-	Zipped bool   `json:"zipped"`
-	IDs    []int  `json:"ids"`
-	p      pack.Pack
-	atHand []byte
-	Task   int `json:"task"`
+	Seq     int    `json:"seq"`
+	Stamp   int64  `json:"stamp"`
+	AtMs    int64  `json:"at_ms"`
+	Via     string `json:"via"` // queue | direct
+	Bytes   int    `json:"bytes"`
+	Count   int    `json:"record_count"`
+	Zipped  bool   `json:"zipped"`
+	IDs     []int  `json:"ids"`
+	p       pack.Pack
+	atHand  []byte
+	Task    int  `json:"task"`
+	Errored bool `json:"errored,omitempty"`
 }
 
 type c16Client struct {
@@ -123,6 +125,13 @@ func (c *c16Client) SendFlush(p pack.Pack, flush bool, opts ...wnet.TcpClientOpt
 		}
 	}
 	c.d.Emits = append(c.d.Emits, e)
+	// fault: the client reports a send error for a pack it was nevertheless handed (dropped
+	// connection, failed flush, full client queue). The pack counts as handed over.
+	if c.d.ClientErrors && simrt.ChanceF(1, 5) {
+		e.Errored = true
+		simrt.Fault("client_send_error")
+		return errors.New("simulated send failure")
+	}
 	return nil
 }
 
@@ -139,21 +148,22 @@ type c16Rec struct {
 }
 
 type c16Data struct {
-	Configured  bool       `json:"configured"`
-	Retain      bool       `json:"retain"`
-	MaxBuf      int        `json:"max_buffer_size"`
-	WaitMs      int64      `json:"max_wait_time"`
-	ZipMin      int        `json:"zip_min_size"`
-	QueueSize   int        `json:"queue_size"`
-	Recs        []*c16Rec  `json:"records"`
-	Emits       []*c16Emit `json:"emits"`
-	CancelStamp int64      `json:"cancel_stamp"`
-	CancelMs    int64      `json:"cancel_ms"`
-	EndMs       int64      `json:"end_ms"`
-	QueueCap    int        `json:"queue_capacity_observed"`
-	directTask  int
-	refused     map[int]bool
-	byID        map[int]*c16Rec
+	Configured   bool       `json:"configured"`
+	Retain       bool       `json:"retain"`
+	ClientErrors bool       `json:"client_errors"`
+	MaxBuf       int        `json:"max_buffer_size"`
+	WaitMs       int64      `json:"max_wait_time"`
+	ZipMin       int        `json:"zip_min_size"`
+	QueueSize    int        `json:"queue_size"`
+	Recs         []*c16Rec  `json:"records"`
+	Emits        []*c16Emit `json:"emits"`
+	CancelStamp  int64      `json:"cancel_stamp"`
+	CancelMs     int64      `json:"cancel_ms"`
+	EndMs        int64      `json:"end_ms"`
+	QueueCap     int        `json:"queue_capacity_observed"`
+	directTask   int
+	refused      map[int]bool
+	byID         map[int]*c16Rec
 }
 
 //go:norace
@@ -175,6 +185,7 @@ func c16Body(configured bool) func(rc *RunCtx) {
 		d := &c16Data{Configured: configured, refused: map[int]bool{}, byID: map[int]*c16Rec{}, directTask: -1}
 		rc.Data = d
 		d.Retain = simrt.Chance(1, 2)
+		d.ClientErrors = simrt.ChanceF(1, 3)
 		client := &c16Client{d: d, retain: d.Retain}
 		ctx, cancel := context.WithCancel(context.Background())
 		zip.VerifReset()
